@@ -298,6 +298,17 @@ func (e *Engine) mergeValues(c *Term, a, b Value) (Value, bool) {
 		if x.typ == nil && y.typ == nil {
 			return x, true
 		}
+		// opaque errors carry a symbolic "is non-nil" flag, so that nil and non-nil errors merge
+		if (x.typ == e.opaqueErrT || x.typ == nil) && (y.typ == e.opaqueErrT || y.typ == nil) {
+			fx, fy := e.ts.False, e.ts.False
+			if x.typ != nil {
+				fx = x.v.(*Term)
+			}
+			if y.typ != nil {
+				fy = y.v.(*Term)
+			}
+			return e.opaqueErr(e.ts.Ite(c, fx, fy)), true
+		}
 		if x.typ == nil || y.typ == nil || !types.Identical(x.typ, y.typ) {
 			return nil, false
 		}
@@ -402,6 +413,17 @@ func (e *Engine) eqValue(a, b Value) *Term {
 			// comparing interface with concrete value of some type: not produced by go/ssa
 			panic(unsupported(fmt.Sprintf("eq: interface vs %T", b)))
 		}
+		if x.typ == e.opaqueErrT || y.typ == e.opaqueErrT {
+			// equal only if both are nil (distinct opaque errors are distinct objects)
+			nx, ny := e.ts.Bool(x.typ == nil), e.ts.Bool(y.typ == nil)
+			if x.typ == e.opaqueErrT {
+				nx = e.ts.Not(x.v.(*Term))
+			}
+			if y.typ == e.opaqueErrT {
+				ny = e.ts.Not(y.v.(*Term))
+			}
+			return e.ts.And(nx, ny)
+		}
 		if x.typ == nil || y.typ == nil {
 			return e.ts.Bool(x.typ == nil && y.typ == nil)
 		}
@@ -469,4 +491,27 @@ func concreteString(s StringV) (string, bool) {
 		bs[i] = byte(t.cval)
 	}
 	return string(bs), true
+}
+
+// opaqueErr builds an error value whose text is not modelled; nonNil says whether it is non-nil.
+func (e *Engine) opaqueErr(nonNil *Term) IfaceV {
+	if nonNil.IsFalse() {
+		return IfaceV{}
+	}
+	return IfaceV{typ: e.opaqueErrT, v: nonNil}
+}
+
+// concIface makes the nil-ness of a maybe-nil opaque error concrete on this path (may fork).
+func (e *Engine) concIface(st *State, iv IfaceV) IfaceV {
+	if iv.typ != e.opaqueErrT {
+		return iv
+	}
+	f := iv.v.(*Term)
+	if f.IsTrue() {
+		return iv
+	}
+	if e.concBool(st, f) {
+		return IfaceV{typ: e.opaqueErrT, v: e.ts.True}
+	}
+	return IfaceV{}
 }
